@@ -86,3 +86,15 @@ chk("C20", "model_checking",
     "references containing '*' or '%' are outside the explored space; reference resolution is the rule documented by TestMatchList.",
     "TLA+ reference operators + TLC lemma check; exhaustive bounded vector generation replayed into real code; TLC re-evaluation of recorded random vectors",
     "DESIGN.md 3 (C20)", "tlc+harness/cmd/listmatch")
+
+chk("C06", "model_checking",
+    "ServerLife.tla (connection life cycle with explicit reader modes line / literal / SASL / IDLE, disconnect enabled everywhere, resource guards "
+    "LitMax and AppendMax) is model-checked for exactly-once Session.Close and, under fairness, for complete cleanup after a disconnect. 7 valid "
+    "multi-command transcripts are cut at every byte offset (clean close, close after the server went quiet, reset) and token-level mutations, deep "
+    "nesting and garbage are sent to a real server; the ordered life-cycle events of every connection (NewSession, every backend call with the size of what "
+    "was buffered, IDLE goroutine start/stop, Session.Close, connection close) are recorded and ServerLifeTrace judges each trace, which must end clean. "
+    "Server-log panics, leftover goroutines and connections that never end are reported directly.",
+    "Go's runtime is the oracle for panics; 'spin'/'never ends' is a 3 s bound; goroutine leak = imapserver.(*Conn) frames alive 2 s after the batch; "
+    "100 MiB payloads are only announced; memory safety and super-linear time are not decided by TLC (coarse run-time monitors only).",
+    "TLA+ life-cycle spec + TLC (safety and liveness); crash-point enumeration at every byte offset; trace validation of recorded life cycles; fuzz monitors",
+    "DESIGN.md 3 (C06)", "tlc+harness/cmd/life")
